@@ -161,7 +161,16 @@ def model_l4_delivered(st):
 class SubRun:
     """one C13 execution on the mid-level world"""
 
-    def __init__(self, expected, half):
+    # the model's subprotocol names stand for classes of real names: ordinary, non-ASCII, very long, with odd characters
+    SPELLINGS = [{"a": "a", "u": "u"}, {"a": "\u00fc-proto \u2603", "u": "\u00fc-proto"}, {"a": "n" * 300, "u": "n" * 299},
+                 {"a": "a/b\\c:d e", "u": "A"}]
+
+    def spell(self, n):
+        return self.names.get(n, n)
+
+    def __init__(self, expected, half, variant=0):
+        self.names = self.SPELLINGS[variant % len(self.SPELLINGS)]
+        expected = {k: [self.spell(n) for n in v] for k, v in expected.items()} if expected else expected
         self.expected = expected
         self.w = DilMidWorld(expected=expected)
         self.w.connect()
@@ -195,11 +204,11 @@ class SubRun:
         a, x, y = la
         self.schedule.append(list(la))
         if a == "AppOpen":
-            p = w.open(x, self._name_of_id.get(y, "a"), half=self.half)
+            p = w.open(x, self.spell(self._name_of_id.get(y, "a")), half=self.half)
             self.openers[y] = p
             self.scids[x].append(getattr(getattr(p, "transport", None), "_scid", None))
         elif a == "AppListen":
-            w.listen(x, self._listen_name, half=self.half)
+            w.listen(x, self.spell(self._listen_name), half=self.half)
         elif a in ("AppWrite", "AppClose"):
             e, sid = x, y
             p = self.end_proto(sid, e)
@@ -257,7 +266,7 @@ class SubRun:
 
 
 def replay_sub(tid, states, names_by_step, expected, half):
-    run = SubRun(expected, half)
+    run = SubRun(expected, half, variant=tid)
     run._writes = {}
     run._name_of_id = {}
     drift = None
